@@ -16,6 +16,7 @@ import (
 	"sync/atomic"
 
 	"github.com/resonatehq/resonate/internal/kernel/t_aio"
+	"github.com/resonatehq/resonate/pkg/task"
 	"github.com/resonatehq/resonate/internal/verifh/vh"
 )
 
@@ -136,6 +137,14 @@ func runInject(r *runner, rng *rand.Rand, prop string) {
 				r.violate("observer:"+b.name, err.Error())
 				return
 			}
+			if len(targets) > 14 {
+				// a large batch: the first and last row-changing positions and a few in between
+				keep := append([]pos{}, targets[:3]...)
+				for k := 0; k < 5; k++ {
+					keep = append(keep, targets[3+g.r.Intn(len(targets)-8)])
+				}
+				targets = append(keep, targets[len(targets)-5:]...)
+			}
 			for _, p := range targets {
 				c := txs[p.i].cmds[p.j]
 				for _, t := range triggersFor(c, ref) {
@@ -230,9 +239,13 @@ func runIsolation(r *runner, rng *rand.Rand) {
 	}()
 	for i := 1; i <= 40; i++ {
 		var txs []txr
-		for k := 0; k < 8; k++ {
+		nt, nc := 8, 6
+		if i%3 == 0 {
+			nt, nc = 70+rng.Intn(130), 2 // many small submissions in one Execute
+		}
+		for k := 0; k < nt; k++ {
 			var tx txr
-			for j := 0; j < 6; j++ {
+			for j := 0; j < nc; j++ {
 				tx.cmds = append(tx.cmds, g.Command())
 			}
 			txs = append(txs, tx)
@@ -388,6 +401,38 @@ func runSingle(r *runner, rng *rand.Rand) {
 			return
 		}
 	}
+	// lease renewals alone in a batch (an idle server: one worker heartbeating, nothing else to write). A task is claimed
+	// at creation, a lock acquired, then each heartbeat is the only write of its batch, behind a read; the renewed lease
+	// must be in the tables.
+	{
+		proc := fmt.Sprintf("hb-proc-%d", g.r.Intn(1000000))
+		pc := g.createPromise()
+		pc.Id = "hb-" + proc
+		tc := g.createTask()
+		tc.Id = "__invoke:" + pc.Id
+		tc.State, tc.ProcessId, tc.Ttl = task.Claimed, &proc, 1+g.r.Intn(100000)
+		setup := []txr{{cmds: []*t_aio.Command{
+			{Kind: t_aio.CreatePromiseAndTask, CreatePromiseAndTask: &t_aio.CreatePromiseAndTaskCommand{PromiseCommand: pc, TaskCommand: tc}},
+			{Kind: t_aio.AcquireLock, AcquireLock: &t_aio.AcquireLockCommand{ResourceId: "hb-res-" + proc, ExecutionId: "hb-exec", ProcessId: proc, Ttl: int64(1 + g.r.Intn(100000)), ExpiresAt: g.i64()}},
+		}}}
+		if !r.execBatch(b, ref, setup, "lease setup") {
+			return
+		}
+		for k := 0; k < 3; k++ {
+			hb := &t_aio.Command{Kind: t_aio.HeartbeatTasks, HeartbeatTasks: &t_aio.HeartbeatTasksCommand{ProcessId: proc, Time: g.t()}}
+			if k == 1 {
+				hb = &t_aio.Command{Kind: t_aio.HeartbeatLocks, HeartbeatLocks: &t_aio.HeartbeatLocksCommand{ProcessId: proc, Time: g.t()}}
+			}
+			txs := []txr{{cmds: []*t_aio.Command{{Kind: t_aio.ReadTask, ReadTask: &t_aio.ReadTaskCommand{Id: tc.Id}}}}, {cmds: []*t_aio.Command{hb}}}
+			if k == 2 {
+				txs = txs[1:]
+			}
+			if !r.execBatch(b, ref, txs, "a batch whose only write is "+cmdName(hb)) {
+				return
+			}
+			r.rep.Hit("single.unharmed.lease." + hb.Kind.String())
+		}
+	}
 	for round := 0; round < 6; round++ {
 		var c *t_aio.Command
 		if g.r.Intn(3) != 0 {
@@ -401,6 +446,20 @@ func runSingle(r *runner, rng *rand.Rand) {
 		}
 		trg := triggersFor(c, ref)
 		if trg == nil {
+			continue
+		}
+		if round%2 == 1 {
+			// unharmed: the one command alone in its batch (optionally behind a read) is acknowledged, so its rows must be
+			// in the tables as the second connection reads them
+			txs := []txr{{cmds: []*t_aio.Command{c}}}
+			if g.r.Intn(2) == 0 {
+				txs = append([]txr{{cmds: []*t_aio.Command{g.CommandOf(t_aio.ReadPromise)}}}, txs...)
+			}
+			r.cursors = g.cursors
+			if !r.execBatch(b, ref, txs, "a batch whose only write is "+cmdName(c)) {
+				return
+			}
+			r.rep.Hit("single.unharmed." + c.Kind.String())
 			continue
 		}
 		m := ref.Clone()
